@@ -1,3 +1,4 @@
+import os
 import random
 import networkx as nx
 from logging import Logger
@@ -18,6 +19,13 @@ from gcmpy.tools.draw_set import DrawSet
 
 class ErrorMarkovChainMonteCarloRewiring(Exception):
     ...
+
+
+# Verification hook (dead code unless the environment variable GCMPY_VERIF is "1" AND a harness
+# installed a callback): called at the head of the outer proposal loop and of the inner search
+# loop of rewire() so that an external explorer can delimit one proposal iteration.
+_VERIF: bool = os.environ.get("GCMPY_VERIF") == "1"
+_VERIF_HOOK = None
 
 
 class MarkovChainMonteCarloRewiring(MarkovChainMonteCarlo):
@@ -367,6 +375,8 @@ class MarkovChainMonteCarloRewiring(MarkovChainMonteCarlo):
 
         convergence_count: int = 0
         while convergence_count <= self._convergence_limit:
+            if _VERIF and _VERIF_HOOK is not None:
+                _VERIF_HOOK("outer", G, EdgeSet, convergence_count)
             if convergence_count % 50 == 0 and self._proposal_count != 0:
                 self._acceptance_ratio.append(
                     float(self._proposals_accepted) / float(self._proposal_count)
@@ -379,6 +389,8 @@ class MarkovChainMonteCarloRewiring(MarkovChainMonteCarlo):
 
             search_count: int = 0
             while search_count <= self._search_limit:
+                if _VERIF and _VERIF_HOOK is not None:
+                    _VERIF_HOOK("inner", G, EdgeSet, search_count)
                 # choose another edge at random.
                 e1: tuple = EdgeSet.draw()
 
